@@ -360,6 +360,12 @@ def add_worm_gear_mating(
         friction_coefficient > worm_gear.pressure_angle.cos() * \
         worm_gear.helix_angle.tan()
 
+    worm_wheel = slave if worm_gear is master else master
+    if worm_wheel.bending_stress_is_computable:
+        worm_wheel.time_variables.setdefault('bending stress', [])
+    else:
+        worm_wheel.time_variables.pop('bending stress', None)
+
 
 def add_fixed_joint(
     master: RotatingObject,
